@@ -193,6 +193,10 @@ ExtrapOp(form, A, rho, c, lo, hi) ==
     ELSE Either(form, A, FromFn(A.nv, LAMBDA t, v :
              IF t >= lo /\ t <= hi THEN Extrap(A, v, rho, c, lo, t) ELSE A.m[t, v]))
 
+\* replace_where(test, new): every observation that passes the test is overwritten IN PLACE (a missing value passes no test), then trimmed
+RwTest(f, x) == CASE f = "neg" -> x < 0 [] f = "pos" -> x > 0
+RwOp(A, f, new) == Method(FromFn(A.nv, LAMBDA t, v : IF A.m[t, v] # NaN /\ RwTest(f, A.m[t, v]) THEN new ELSE A.m[t, v]))
+
 Apply(A, B, op) ==
     CASE op[1] = "get"      -> GetOp(A, op[2], op[3])
       [] op[1] = "call"     -> CallOp(A, op[2], op[3])
@@ -212,6 +216,8 @@ Apply(A, B, op) ==
       [] op[1] = "fill"     -> FillOp(op[2], op[3], op[4], A, B, op[5])
       [] op[1] = "extrap"   -> ExtrapOp(op[2], A, op[3], op[4], op[5], op[6])
       [] op[1] = "copy"     -> Fun(A, A)
+      [] op[1] = "rebuild"  -> Fun(A, A)        \* a new series constructed from the start period and the data array of the receiver
+      [] op[1] = "rw"       -> RwOp(A, op[2], op[3])
 
 UsesB(op) == op[1] \in {"overlay", "underlay", "hstack", "binser"} \/ (op[1] = "fill" /\ op[3] = "from_series")
 
